@@ -51,6 +51,18 @@ def run(repo, res):
                   % (r['cls'], r['a'], r['cls'], r['b'], r['b'], r['a']),
                   sample='%s: definitions of %s reach %s' % (r['cls'], r['a'], r['b']))
     res.count('block_pairs', n, floor=100)
+    # ---- lookup order: the later statement of a block is consulted before the earlier one ----------------------
+    nsh = 0
+    for (cls, blk, reader), r in sorted(R.shadow_records(repo).items()):
+        nsh += r['n']
+        bad = r['bad']
+        res.check('C02-R1', '%s %s lookup order from %s' % (R.method_name(repo, cls), blk, reader), not bad, r['line'][0], r['line'][1],
+                  'a read in %s.%s reaches the region of %s (walk %s) without first consulting the region(s) %s of the later '
+                  'statements of the same block: a name bound there and rebound later in the block resolves to the earlier, '
+                  'overwritten binding (the later one is reported unused, go-to-definition misses it)'
+                  % (cls, reader, bad[0][1] if bad else '', bad[0][3] if bad else '', bad[0][2] if bad else ''),
+                  sample='%s: from %s the later statements of %s shadow the earlier ones' % (cls, reader, blk))
+    res.count('lookup_order_cases', nsh, floor=150)
     # ---- continuity of statement blocks (shared with C01-R5): a dropped exit region loses/keeps definitions ----
     for cls, r in sorted(R.continuity_records(repo).items()):
         for path, line in sorted(r['dropped'].items()):
